@@ -306,6 +306,8 @@ class PathAnalysis(flow.Analysis):
     mark_handlers = False  # record an event `caught:<handler classes>` when an except body is entered
     fallible = True  # opaque calls may raise `Exception*`
     prune = True  # drop a branch whose complementary literal already holds
+    forget_at_loop_back = False  # start each further iteration without the facts about variables the loop body assigns
+    gc_dead_terms = False  # when a variable is rebound, forget literals about its *other* definition sites that no variable holds any more
 
     def __init__(self, fn_node: ast.AST, event_of=None, fallible_pred=None, stmt_event_of=None):
         super().__init__()
@@ -354,7 +356,52 @@ class PathAnalysis(flow.Analysis):
         env = tuple((k, v) for k, v in state.env if term not in v)
         return replace(state, lits=lits, env=env)
 
+    def loop_back(self, loop, state: PState) -> PState:
+        """Per-message loops re-establish everything they test in each iteration.  Forgetting — at the back edge —
+        the environment, literals and events that mention a variable assigned in the loop body is sound for
+        must-literal rules (facts are only lost) and keeps the number of loop-head states independent of how many
+        definition sites the body has."""
+        if not self.forget_at_loop_back:
+            return state
+        key = id(loop)
+        cache = self.__dict__.setdefault("_loop_names", {})
+        if key not in cache:
+            cache[key] = {n.id for b in loop.body for n in ast.walk(b) if isinstance(n, ast.Name) and isinstance(n.ctx, ast.Store)} | {h.name for b in loop.body for h in ast.walk(b) if isinstance(h, ast.ExceptHandler) and h.name}
+        names = cache[key]
+        prefs = tuple(f"{n}{SEP}" for n in names)
+        env = tuple((k, v) for k, v in state.env if k not in names and not any(p_ in v for p_ in prefs))
+        lits = frozenset(l for l in state.lits if not any(p_ in l for p_ in prefs))
+        events = tuple(e for e in state.events if not any(p_ in e for p_ in prefs))
+        return replace(state, env=env, lits=lits, events=events)
+
+    def _gc(self, state: PState, name: str) -> PState:
+        """Literals that mention a definition-site term of `name` which no variable refers to any longer can never be
+        consulted about a live value again; inside loops they only multiply states (a variable with two definition
+        sites in a loop body otherwise carries the previous iteration's facts about the other site along)."""
+        pref = f"{name}{SEP}"
+        live = " ".join(v for _k, v in state.env)
+        dead = set()
+        for l in state.lits:
+            i = l.find(pref)
+            while i != -1:
+                if i == 0 or not (l[i - 1].isalnum() or l[i - 1] == "_"):
+                    j = i + len(pref)
+                    while j < len(l) and (l[j].isalnum() or l[j] == SEP):
+                        j += 1
+                    t = l[i:j]
+                    if t not in live:
+                        dead.add(l)
+                        break
+                i = l.find(pref, i + 1)
+        if not dead:
+            return state
+        return replace(state, lits=frozenset(state.lits - dead))
+
     def _bind(self, state: PState, name: str, value: Optional[ast.AST], site_node: ast.AST, how: str = "") -> PState:
+        st = self._bind0(state, name, value, site_node, how)
+        return self._gc(st, name) if self.gc_dead_terms else st
+
+    def _bind0(self, state: PState, name: str, value: Optional[ast.AST], site_node: ast.AST, how: str = "") -> PState:
         k = self.site.get(id(site_node), 0)
         term = f"{name}{SEP}{k}"
         state = self._kill(state, term)
